@@ -80,7 +80,7 @@ static void checkElement(const MonG& X, const std::string& route, const std::str
 void runCase(long long i, Prng& r, const Args& a) {
   const ref::Group& g = RG();
   std::string label;
-  int route = (int)(i % 6);
+  int route = (int)(i % 7);
   GenOpt o; o.thetaMax = PI; o.nearPiMin = 0; o.linMax = 1e6;
   if (route == 0 || route == 1) {  // independently built element, both hemispheres
     std::vector<MonS> c = genElement<MonS>(g, r, o, label);
@@ -128,8 +128,24 @@ void runCase(long long i, Prng& r, const Args& a) {
     auto cls = [](double v) { return v >= 1e-6 ? ">=1e-6" : v >= 1e-9 ? "[1e-9,1e-6)" : "<1e-9"; };
     std::string lb = std::string("2pi-eps") + cls(d1 + d2) + "/tilt" + cls(tilt);
     checkElement(X, "near-pi-product", lb, i, a);
-  } else {  // the library's own Random()
+  } else if (route == 5) {  // the library's own Random()
     MonG X = MonG::Random();
     checkElement(X, "Random", "random", i, a);
+  } else {  // long composition chains of large rotations: elements reachable only through histories (both hemispheres, renormalised products)
+    int k = 3 + r.below(40);
+    MonG X = MonG::Identity();
+    for (int f = 0; f < k; ++f) {
+      std::vector<double> tv(g.dof, 0.0);
+      for (int b = 0; b < g.nb(); ++b) {
+        const ref::Elem& e = g.el[b]; int off = g.dofOff[b]; double ax[3]; rotAxis(r, ax); double th = r.uni(2.0, PI);
+        if (e.rot == 2) tv[off + e.rotIdx[0]] = th * r.sign();
+        if (e.rot == 3) for (int q = 0; q < 3; ++q) tv[off + e.rotIdx[q]] = th * ax[q];
+        for (int q : e.linIdx) tv[off + q] = r.uni(-1, 1);
+        if (e.timeIdx >= 0) tv[off + e.timeIdx] = r.uni(-0.2, 0.2);
+      }
+      MonG F = tangentFrom<MonT>(tv).exp();
+      X = r.coin(0.8) ? X * F : F.inverse() * X;
+    }
+    checkElement(X, "composition-chain", k < 10 ? "k<10" : k < 25 ? "k<25" : "k>=25", i, a);
   }
 }
